@@ -7,6 +7,7 @@
 // Grid: 16 valid statements (queries and table definitions, multi-line, non-ASCII text); every prefix of each; each with one
 // token deleted / duplicated / swapped with its neighbour; 3000 token soups and 1500 random Unicode strings from a fixed
 // generator; bracket nesting to depth 200; the listed invalid definitions.
+// Also: table definitions with several large bounded-repetition patterns.
 include!("verif_grid_common.rs");
 
 const VALID: [&str; 16] = [
